@@ -103,10 +103,13 @@ pub fn run_proof<G: Cv>(env: &Env<G>, prog: &Program, seed: u64) -> Out {
         out.bad.push((key("round trip"), "re-encoding equals the original bytes".into(), "different".into()));
     }
     let p2 = R1CSProof::<G>::from_bytes(&e1).unwrap();
-    let v1 = program::verify::<G>(prog, &env.pc, &env.bp, seed, Dev::None, &pr.commitments, &p1, program::LABEL).result.is_ok();
-    let v2 = program::verify::<G>(prog, &env.pc, &env.bp, seed, Dev::None, &pr.commitments, &p2, program::LABEL).result.is_ok();
-    if v1 != v2 {
-        out.bad.push((key("verdict before/after round trip"), "same verdict".into(), format!("{} / {}", v1, v2)));
+    // (a verifier that panics on this honest statement gives no verdict: C01/C08's business)
+    let v1 = guarded(|| program::verify::<G>(prog, &env.pc, &env.bp, seed, Dev::None, &pr.commitments, &p1, program::LABEL).result.is_ok());
+    let v2 = guarded(|| program::verify::<G>(prog, &env.pc, &env.bp, seed, Dev::None, &pr.commitments, &p2, program::LABEL).result.is_ok());
+    if let (Ok(v1), Ok(v2)) = (v1, v2) {
+        if v1 != v2 {
+            out.bad.push((key("verdict before/after round trip"), "same verdict".into(), format!("{} / {}", v1, v2)));
+        }
     }
     // length law
     let k = gates.max(1).next_power_of_two().trailing_zeros() as usize;
